@@ -369,6 +369,11 @@ func (l *Lexer) Split() []*Token {
 		}
 		prev = char
 	}
+	if strStart {
+		// unterminated quote: report the rest as a word that begins at the quote
+		tokStart = tokStartPos
+		tokLen++
+	}
 	if tokLen > 0 {
 		curr = l.Query[tokStart : tokStart+min(tokLen, l.Length-tokStart)]
 		if token := buildToken(curr, tokStartPos); token != nil {
